@@ -200,6 +200,19 @@ def jarValidate (supported : List String) (E : Env) (J : JarEnv) (j : Jws) : Out
          | _ => .reject)
       | _ => .reject
 
+/-! ### vcr/verifier signature_verifier.go jwtSignature (VC / VP in JWT format): ParseJWT with the DID key resolver (an
+      absent kid means "the issuer's key"), then the kid must belong to the issuer. (`did:jwk` kids get `#0` appended
+      before resolving: not modelled.) -/
+
+def vcJwtSignature (supported : List String) (E : Env) (issuer : String) (didOf : String → String) (j : Jws) : Outcome :=
+  let E' : Env := { E with resolve := fun kid => E.resolve (if kid = "" then issuer else kid) }
+  match parseJWT supported E' j with
+  | .reject => .reject
+  | .accept vs =>
+    match j.sigs with
+    | [s] => if s.kid ≠ "" && didOf s.kid ≠ issuer then .reject else .accept vs   -- errVerificationMethodNotOfIssuer
+    | _ => .reject
+
 /-! ### LDProof.Verify: the algorithm comes from the key handed in by the caller; the detached JWS header is not read -/
 
 structure LdEnv where
